@@ -58,7 +58,12 @@ def gen(rng, tier, open_keys):
         g.emit(["newlist"]); g.emit(["newlist"])
         cmpn = rng.choice(["lt", "gt", "key"])
         if i % 5 == 4:
-            g.emit(["heap", cmpn])
+            if rng.random() < 0.35:
+                # a heap populated from an iterator, which may fail part-way: whatever was pushed is a heap
+                xs = seq_of(rng)
+                g.emit(["heapfrom", cmpn, xs, rng.choice([len(xs), len(xs), rng.randrange(0, len(xs) + 1)])])
+            else:
+                g.emit(["heap", cmpn])
             for _ in range(rng.choice([0, 1, 3, 8, 20])):
                 g.emit(["hpush", rng.randrange(-20, 21)] if rng.random() < 0.75 else ["hpop"])
             g.emit(["hiter"])
@@ -107,7 +112,7 @@ def features(line, obs):
     for op in t[1:]:
         if op[0] in ("sortm", "sortq", "sorted"):
             f.append(f"{op[0]}:{op[2]}")
-        elif op[0] in ("hpush", "hpop", "heap"):
+        elif op[0] in ("hpush", "hpop", "heap", "heapfrom"):
             f.append(op[0])
     n = sum(1 for op in t[1:] if op[0] == "pb") + sum(len(op[2]) for op in t[1:] if op[0] == "unjson")
     f.append(f"len:{min(n, 30) // 5 * 5}")
